@@ -75,6 +75,14 @@ def G7(head_left=False):
                 unary=[(3, 4, 'u')], roots=[5], uniform=True)
 
 
+def G7x(head_left=False):
+    """as G7 without the direct rule X C -> S, plus A Y -> S: the unary result Y over the first two words is needed by the only derivation through it,
+    and a Y filed at any other span would combine with the first word"""
+    h = 1 if head_left else 0
+    return dict(name='G7x' if not head_left else 'G7xl', ncats=7, T=3, binary=[(0, 1, 3, h, 'ab'), (4, 2, 5, h, 'zc'), (1, 2, 6, h, 'bc'), (0, 6, 5, h, 'aw'), (0, 4, 5, h, 'ay')],
+                unary=[(3, 4, 'u')], roots=[5], uniform=True)
+
+
 def G8():
     """the full-span category is not a root but has a unary rule into the root set: a multi-word sentence must fail"""
     return dict(name='G8', ncats=5, T=2, binary=[(0, 1, 2, 1, 'ab'), (1, 0, 2, 1, 'ba'), (0, 0, 4, 1, 'aa')], unary=[(2, 3, 'u'), (0, 3, 'v')], roots=[3, 4], uniform=True)
